@@ -139,15 +139,28 @@ func (c *exprCtx) expr(v ssa.Value) string {
 			case *ssa.Alloc:
 				return c.allocValue(a)
 			case *ssa.FreeVar:
-				if b, ok := bindingOf(a).(*ssa.Alloc); ok {
-					return c.allocValue(b)
+				// through any number of nested literals
+				var b ssa.Value = a
+				for i := 0; i < 4; i++ {
+					fv, isFV := b.(*ssa.FreeVar)
+					if !isFV {
+						break
+					}
+					b = bindingOf(fv)
+				}
+				if al, ok := b.(*ssa.Alloc); ok {
+					return c.allocValue(al)
 				}
 			case *ssa.FieldAddr, *ssa.IndexAddr:
 				return c.expr(a)
 			case *ssa.Global:
 				return c.expr(a)
 			}
-			return "*" + c.expr(x.X)
+			if inner := c.expr(x.X); strings.HasPrefix(inner, "&") {
+				return inner[1:]
+			} else {
+				return "*" + inner
+			}
 		}
 		return x.Op.String() + c.expr(x.X)
 	case *ssa.FieldAddr:
